@@ -50,3 +50,44 @@ pub proof fn lemma_cmp_facts(sl: bool, wl: int, b1: int, f1: int, b2: int, f2: i
 pub proof fn lemma_ord_swap(b1: int, f1: int, b2: int, f2: int)
     ensures ord(b2, f2, b1, f1) == (match ord(b1, f1, b2, f2) { Ordering::Less => Ordering::Greater, Ordering::Equal => Ordering::Equal, Ordering::Greater => Ordering::Less })
 { }
+
+// conversion policies (C04): facts relating the helper's result for source pattern x (fs fraction bits) to the
+// destination (signedness sd, width wd, fd fraction bits)
+pub proof fn lemma_conv_facts(sd: bool, wd: int, x: int, fs: int, fd: int)
+    requires 8 <= wd <= 128, 0 <= fd <= wd, 0 <= fs <= 128
+    ensures ({
+        let xx = tfh_x(x, fs, fd);
+        &&& xx == R_conv(x, fs, fd)
+        &&& (x >= 0 ==> xx >= 0) &&& (x < 0 ==> xx < 0)
+        &&& (xx >= 0 ==> wrap(sd, wd, xx % p2(128)) == wrap(sd, wd, xx))
+        &&& wrap(sd, wd, wrap(true, 128, xx)) == wrap(sd, wd, xx)
+        &&& (xx >= 0 ==> (fits(sd, wd, xx) <==> (xx < p2(wd) && !(sd && wrap(true, wd, xx) < 0))))
+        &&& (xx < 0 ==> (fits(sd, wd, xx) <==> (sd && xx >= -p2(wd - 1))))
+        &&& (xx >= p2(wd) ==> xx > max_of(sd, wd)) &&& (xx < -p2(wd - 1) ==> xx < min_of(sd, wd))
+        &&& (sd && xx >= 0 && xx < p2(wd) && wrap(true, wd, xx) < 0 ==> xx > max_of(sd, wd))
+        &&& (!sd && xx < 0 ==> xx < min_of(sd, wd))
+    })
+{
+    let (p1, pp2) = (p2(fd), p2(fs));
+    lemma_p2_pos(fd); lemma_p2_pos(fs); lemma_p2_pos(wd); lemma_p2_pos(wd - 1); lemma_p2_step(wd); lemma_p2_pos(128);
+    let v = x * p1; let xx = v / pp2; let m = v % pp2;
+    lemma_fundamental_div_mod(v, pp2); lemma_mod_bound(v, pp2);
+    lemma_mul_sign(x, p1);
+    assert(x >= 0 ==> xx >= 0) by (nonlinear_arith) requires v == pp2 * xx + m, 0 <= m < pp2, x >= 0 ==> v >= 0;
+    assert(x < 0 ==> xx < 0) by (nonlinear_arith) requires v == pp2 * xx + m, 0 <= m < pp2, x < 0 ==> v < 0;
+    // reducing modulo 2^128 first does not change the value modulo 2^wd
+    lemma_p2_add(wd, 128 - wd); lemma_p2_pos(128 - wd);
+    let e = p2(128 - wd);
+    if xx >= 0 {
+        lemma_fundamental_div_mod(xx, p2(128));
+        let k = xx / p2(128);
+        assert(xx % p2(128) == xx + (-(k * e)) * p2(wd)) by (nonlinear_arith) requires xx == p2(128) * k + xx % p2(128), p2(128) == p2(wd) * e;
+        lemma_wrap_shift(sd, wd, xx, -(k * e));
+    }
+    let k2 = lemma_wrap_diff(true, 128, xx);
+    assert(wrap(true, 128, xx) == xx + (-(k2 * e)) * p2(wd)) by (nonlinear_arith) requires wrap(true, 128, xx) == xx - k2 * p2(128), p2(128) == p2(wd) * e;
+    lemma_wrap_shift(sd, wd, xx, -(k2 * e));
+    if 0 <= xx < p2(wd) {
+        if xx < p2(wd - 1) { lemma_wrap_id(true, wd, xx); } else { lemma_wrap_unique(true, wd, xx, xx - p2(wd), -1); }
+    }
+}
